@@ -43,7 +43,7 @@ def impl_oracle(c):
     op = c["op"]
     if op == "file":
         return J.file_oracle(c)
-    if op in ("script", "rstream", "rseries", "reuse", "targets", "lexfn", "raw"):
+    if op in ("script", "rstream", "rseries", "reuse", "targets", "lexfn", "raw", "deep"):
         return J.usage_oracle(c)
     if op == "rawpos" and o.get("note"):
         return "position", o["note"]
